@@ -815,7 +815,12 @@ void GlobalGraph::makeDirected()
       Node nodeB = currRelation.first;
       Edge edge = currRelation.second;
       if (alreadyConvertedRelations.insert(pair<Node, Node>(min(nodeA, nodeB), max(nodeA, nodeB))).second)
+      {
         linkInNodeStructure_(nodeA, nodeB, edge);
+        // the kept direction is arbitrary (first met): record it in the edge structure too,
+        // so that getNodes(edge) / getTop / getBottom agree with the neighbor lists
+        edgeStructure_[edge] = pair<Node, Node>(nodeA, nodeB);
+      }
     }
   }
   directed_ = true;
